@@ -117,6 +117,16 @@ pub fn container_entries() -> Vec<Entry> {
         std_entry!(Vec<Shape>),
         std_entry!(Vec<Color>),
         std_entry!(HashMap<String, Vec<(u8, Option<Point>)>>),
+        std_entry!(Vec<[u8; 2]>),
+        std_entry!(BTreeMap<String, (u8, String)>),
+        std_entry!(Option<HashMap<String, u8>>),
+        std_entry!(HashMap<String, Option<Vec<u8>>>),
+        std_entry!(Vec<BTreeSet<u8>>),
+        std_entry!((Option<u8>, Option<u8>, Option<u8>)),
+        std_entry!([(u8, String); 2]),
+        std_entry!(Box<BTreeMap<u8, Box<u8>>>),
+        std_entry!(Vec<(f32, i128, NonZeroU16)>),
+        std_entry!(BTreeMap<i32, (bool, char)>),
     ]
 }
 
